@@ -56,6 +56,17 @@ func main() {
 			}
 			overlay["/repo/"+virt] = data
 		}
+		for _, g := range sp.OverlayGen {
+			data, err := os.ReadFile("/repo/" + g.Src)
+			if err != nil {
+				fatal("overlay_gen: %v", err)
+			}
+			text := string(data)
+			for _, r := range g.Replace {
+				text = strings.Replace(text, r[0], r[1], 1)
+			}
+			overlay["/repo/"+g.Dst] = []byte(text)
+		}
 	}
 	w, err := interp.Load(".", overlay, *pkg)
 	if err != nil {
